@@ -85,6 +85,9 @@ pub struct Profile {
     /// C17: resets and last-handle drops at particular moments of a stream's life (final DATA blocked on the window, final
     /// frame partly written, right after a clean close, after trailers), as short op macros executed back to back
     pub late_reset: bool,
+    /// the send BUFFER (max_send_buffer_size), not the window, bounds capacity: reservations above the buffer, partial use
+    /// of a grant, capacity waits while part of the grant is still unused, small writes draining the buffer
+    pub bufcap: bool,
     /// legal peer with races the RFC tolerates: frames still in flight for a stream the endpoint has just reset or refused,
     /// the endpoint's SETTINGS_MAX_CONCURRENT_STREAMS binding the peer only from its acknowledgement
     pub race: bool,
@@ -104,7 +107,7 @@ pub struct Profile {
 }
 
 pub fn profile(name: &str) -> Profile {
-    let base = Profile { name: "mixed", w_conn_poll: 30, w_peer: 30, w_app: 40, w_io: 3, w_chaos: 0, w_end: 1, max_data: 3000, tiny_windows: false, small_limits: false, recv_heavy: false, control: false, queue: false, backpressure: false, starve: false, fuzz: false, race: false, late_reset: false, legal_peer: false, idle: false, inject: false, abuse: false };
+    let base = Profile { name: "mixed", w_conn_poll: 30, w_peer: 30, w_app: 40, w_io: 3, w_chaos: 0, w_end: 1, max_data: 3000, tiny_windows: false, small_limits: false, recv_heavy: false, control: false, queue: false, backpressure: false, starve: false, fuzz: false, race: false, late_reset: false, bufcap: false, legal_peer: false, idle: false, inject: false, abuse: false };
     match name {
         "flow" => Profile { name: "flow", tiny_windows: true, max_data: 400, w_io: 6, ..base },
         "limits" => Profile { name: "limits", small_limits: true, max_data: 200, ..base },
@@ -117,6 +120,7 @@ pub fn profile(name: &str) -> Profile {
         "legal" => Profile { name: "legal", legal_peer: true, w_end: 0, ..base },
         "bp" => Profile { name: "bp", backpressure: true, max_data: 3000, w_io: 14, w_peer: 32, w_app: 36, w_conn_poll: 30, ..base },
         "queue" => Profile { name: "queue", small_limits: true, queue: true, max_data: 100, w_app: 55, w_peer: 25, w_conn_poll: 20, w_io: 2, ..base },
+        "bufcap" => Profile { name: "bufcap", bufcap: true, max_data: 30, w_app: 55, w_peer: 15, w_conn_poll: 30, w_io: 1, w_end: 0, ..base },
         "starve" => Profile { name: "starve", starve: true, max_data: 60, w_app: 55, w_peer: 20, w_conn_poll: 25, w_io: 1, w_end: 0, ..base },
         "fuzz" => Profile { name: "fuzz", fuzz: true, w_chaos: 22, w_io: 8, w_peer: 30, w_app: 25, w_conn_poll: 30, max_data: 600, ..base },
         "control" => Profile { name: "control", w_end: 2, w_io: 5, control: true, ..base },
@@ -130,7 +134,10 @@ pub fn profile(name: &str) -> Profile {
 pub fn gen_config(rng: &mut Rng, client: bool, p: &Profile) -> Config {
     let mut c = Config::default_client();
     c.role_client = client;
-    if p.starve {
+    if p.bufcap {
+        c.max_send_buffer_size = Some(*rng.pick(&[5usize, 8, 20, 50, 200]));
+        c.peer_settings.push((4, *rng.pick(&[65535u32, 200000])));
+    } else if p.starve {
         c.peer_settings.push((4, *rng.pick(&[65535u32, 200000, 1000000])));
         if rng.chance(1, 3) { c.max_send_buffer_size = Some(*rng.pick(&[100usize, 70000, 1000000])); }
     } else if p.recv_heavy {
@@ -686,6 +693,20 @@ pub fn gen_app(rng: &mut Rng, d: &Driver, p: &Profile) -> Option<Value> {
         return if d.conn_woken() { Some(json!({"op":"poll_accept"})) } else { None };
     }
     if nh == 0 { return None; }
+    if p.bufcap && rng.chance(3, 4) {
+        let cands: Vec<usize> = (0..nh).filter(|&i| d.handles[i].send.is_some() && !d.handles[i].send_done).collect();
+        if !cands.is_empty() {
+            let h = *rng.pick(&cands);
+            return Some(match rng.below(20) {
+                0..=3 => json!({"op":"reserve","h":h,"n": *rng.pick(&[6u64, 10, 20, 60, 100, 300])}),
+                4..=9 => json!({"op":"poll_capacity","h":h}),
+                10..=14 => json!({"op":"send_data","h":h,"len": rng.range(1, 12),"eos": false}),
+                15 => json!({"op":"send_data","h":h,"len": rng.range(1, 12),"eos": true}),
+                16..=17 => json!({"op":"capacity","h":h}),
+                _ => json!({"op":"reserve","h":h,"n": 0}),
+            });
+        }
+    }
     if p.starve && rng.chance(3, 4) {
         let cands: Vec<usize> = (0..nh).filter(|&i| d.handles[i].send.is_some() && !d.handles[i].send_done).collect();
         if !cands.is_empty() {
